@@ -14,21 +14,21 @@ import (
 
 // runPathCase compiles once and runs the machine twice on fresh trees: a compiled machine carries no state
 // from one run to the next (C06), so both runs must give the observation the model gives for one.
-func runPathCase(text string, failAt int) string {
+func runPathCase(text string, failAt int, failPanic string) string {
 	mach, err := expr.NewExprMachine(text, nil)
 	if err != nil {
 		return "build:" + canonBuild(text, nil, err, false)
 	}
-	first := runPathOnce(mach, failAt)
-	second := runPathOnce(mach, failAt)
+	first := runPathOnce(mach, failAt, failPanic)
+	second := runPathOnce(mach, failAt, failPanic)
 	if first != second {
 		return "RERUN-DIFFERS: " + first + " || " + second
 	}
 	return first
 }
 
-func runPathOnce(mach *xpath.Machine, failAt int) string {
-	tree := &mockTree{hash: true, failAt: failAt, failErr: fmt.Errorf("injected-fault-%d", failAt)}
+func runPathOnce(mach *xpath.Machine, failAt int, failPanic string) string {
+	tree := &mockTree{hash: true, failAt: failAt, failErr: fmt.Errorf("injected-fault-%d", failAt), failPanic: failPanic}
 	res := xpath.NewCtxFromCurrent(gocontext.Background(), mach, &mockEntry{t: tree}).Run()
 	out := strings.Join(tree.calls, ";") + " => "
 	if e := res.GetError(); e != nil {
@@ -49,7 +49,7 @@ func runPathOnce(mach *xpath.Machine, failAt int) string {
 
 func runC02(c Case) string {
 	b, _ := hex.DecodeString(cstr(c, "hex"))
-	return runPathCase(string(b), cint(c, "failAt"))
+	return runPathCase(string(b), cint(c, "failAt"), cstr(c, "panic"))
 }
 
 func genC02(r *Rng, tier string, n int, emit func(Case)) {
@@ -72,6 +72,9 @@ func genC05Fault(r *Rng, tier string, n int, emit func(Case)) {
 		text := spell(r, exprTokens(r, p, 0, false), 0)
 		for k := 1; k <= 8; k++ {
 			emit(Case{"k": "c02", "p": p, "text": text, "hex": hex.EncodeToString([]byte(text)), "failAt": k, "fixroot": true})
+			// the same fault as a panic of the callback: a run still ends in an error, never in neither
+			emit(Case{"k": "c02", "p": p, "text": text, "hex": hex.EncodeToString([]byte(text)), "failAt": k, "fixroot": true,
+				"panic": pick(r, []string{"error", "string", "stringer", "int", "struct"})})
 		}
 	}
 }
